@@ -1281,7 +1281,19 @@ impl Server {
         let mut query = String::from("");
 
         for (key, value) in parameter_diff {
-            query.push_str(&format!("SET {} TO '{}';", key, value));
+            // Quote the value as a string literal: double single quotes, and use the
+            // escape-string syntax when it contains backslashes so that the result does
+            // not depend on standard_conforming_strings.
+            let literal = if value.contains('\\') {
+                format!(
+                    "E'{}'",
+                    value.replace('\\', "\\\\").replace('\'', "''")
+                )
+            } else {
+                format!("'{}'", value.replace('\'', "''"))
+            };
+
+            query.push_str(&format!("SET {} TO {};", key, literal));
         }
 
         let res = self.query(&query).await;
